@@ -5,7 +5,7 @@ import re
 VALUES = {
     b'length': [b'0', b'-1', b'-0', b'abc', b'1.5', b'99999999999999999999', b'1e3', b'007', b'1_0', b'x/y', b'2147483648'],
     b'indent': [b'x', b'1.5', b'-1', b'99999999999', b'4294967296', b'0', b'007', b'dos'],
-    b'encoding': [b'nope', b'base64', b'rot13', b'undefined', b'idna', b'123', b'utf-99', b'hex', b'zlib',
+    b'encoding': [b'utf.8', b'latin.1', b'UTF.16', b'utf-8.', b'nope', b'base64', b'rot13', b'undefined', b'idna', b'123', b'utf-99', b'hex', b'zlib',
                   b'utf-16', b'utf-32-be', b'ascii', b'cp037', b'unicode_escape', b'punycode', b'utf-7', b'-',
                   b'437', b'1252', b'8859', b'646', b'936', b'0', b'-1'],
     b'line_endings': [b'mac', b'DOS', b'1', b'unix', b'dos', b'x'],
